@@ -9,6 +9,7 @@ import (
 	"encoding/hex"
 	"os"
 	"sort"
+	"strings"
 	"time"
 
 	"verifh/mon"
@@ -115,6 +116,17 @@ func sweep(x *mon.Ctx) {
 		x.HarnessError("seed artefacts: %v", err)
 	}
 	es := catalogue(w)
+	if only := os.Getenv("C13_ONLY_ENTRY"); only != "" {
+		// development aid for monitor self-tests: restrict the catalogue to entry points whose name contains the
+		// value. Never set by the plan; a restricted run stays below the plan's floor and is reported as a harness error.
+		var keep []*entry
+		for _, e := range es {
+			if strings.Contains(e.name, only) {
+				keep = append(keep, e)
+			}
+		}
+		es = keep
+	}
 	r := &runner{x: x, gs: newGuards(), st: newSites()}
 	setEditBreadth(x.Thorough())
 	allSubstitutions = x.Thorough()
